@@ -97,10 +97,12 @@ def judge(ctx, spec, X, y, out, pend, inp):
         pend.items.append(("reject", bl.fit_line(cat, n, spec["max_iter"], bs, []), impl, inp))
         ctx.count("rejected-hyperparameters")
         return False
-    if out["error"] is not None:
+    runaway = isinstance(out["error"], bl.Runaway)
+    if out["error"] is not None and not runaway:
         e = out["error"]
         V(f"{op} raised {type(e).__name__}: {e}", f"{op}:raise:{type(e).__name__}")
         return False
+    nviol0 = len(ctx.violations) + sum(v for k, v in ctx.counters.items() if k.startswith("violation:"))
 
     calls = bl.calls_of(log)
     perms = bl.perms_of(log)
@@ -136,6 +138,15 @@ def judge(ctx, spec, X, y, out, pend, inp):
             ctx.count("epochs-with>=2-batches")
     ctx.count("epochs", len(calls))
     ctx.count("batches", sum(len(e) for e in epochs_idx))
+
+    if runaway:
+        # the harness stopped the run; the epochs seen so far were judged above.  A runaway with clean epochs is a
+        # time-out of the machinery, never a verdict.
+        ctx.count("runaway-stopped")
+        now = len(ctx.violations) + sum(v for k, v in ctx.counters.items() if k.startswith("violation:"))
+        if now == nviol0:
+            raise core.MachineryError(f"run stopped by the harness ({out['error']}) and no clause of C10 failed on the epochs seen: {spec}")
+        return False
 
     # ---- steps
     upd = bl.n_updates(log)
